@@ -6,7 +6,7 @@
    hfault are ARBITRARY sets of failing driver-operation / hook-invocation indices; bodies are
    arbitrary event lists. The database is the list of statements (identified by their position
    in the fault-free sequence) whose effect is durable. *)
-From Verif Require Import Base C05_Model C05_Check C05_Proofs C05_Proofs2.
+From Verif Require Import Base C05_Model C05_Check C05_Proofs C05_Proofs2 C05_Proofs3.
 
 (* ALL OR NOTHING, one pipeline (Create, Create of a slice, CreateInBatches, Updates, Delete, Save
    of an existing or a key-less record): either no event failed, Error is nil and every statement
@@ -66,9 +66,32 @@ Print Assumptions c05_no_statement_after_failure.
 Theorem c05_spec_holds : forall dfault hfault b db0 free df hf,
   let s := run_op dfault hfault [b] db0 in
   spec_holds (mk_case free df hf false (rev (s_out s)) (last (s_err s) XNil) false
-                      (match_of s db0 [b]) 0%Z (s_open s)) = true.
+                      (match_of s db0 [b]) 0%Z (s_open s) false) = true.
 Proof. exact spec_holds_model. Qed.
 Print Assumptions c05_spec_holds.
+
+(* REFUSED BEFORE IT STARTED.  [run_op_pre dfault hfault pre pipes db0] is the same operation called on a
+   handle that already carries the errors [pre] (a scope that vetoes the write with AddError, an error
+   added to the handle, a value gorm refuses before the first callback) - C05_Check evaluates it on every
+   case of kind "pre".  BeginTransaction's guard (db.Error == nil) keeps the implicit transaction from
+   being opened at all, every callback body is guarded out, CommitOrRollbackTransaction finds nothing to
+   finish: for ANY pipelines and ANY armed faults there is no driver operation (no BEGIN, no statement),
+   no hook invocation, the database is exactly as it was, no transaction is open, and the result's Error
+   is the error the handle carried *)
+Theorem c05_failed_before_start : forall dfault hfault pre pipes db0, pre <> [] ->
+  let s := run_op_pre dfault hfault pre pipes db0 in
+  s_out s = [] /\ s_nops s = 0%nat /\ s_nhooks s = 0%nat /\ s_db s = db0 /\ s_commits s = 0%nat
+  /\ s_open s = 0%Z /\ s_err s = pre.
+Proof. exact failed_before_start. Qed.
+Print Assumptions c05_failed_before_start.
+
+(* ... and the checker's specification half for such a case holds on the model's own output *)
+Theorem c05_pre_spec_holds : forall dfault hfault pipes db0 free df hf,
+  let s := run_op_pre dfault hfault [XPre] pipes db0 in
+  spec_holds (mk_case free df hf false (rev (s_out s)) (last (s_err s) XNil) false
+                      (match_of s db0 pipes) 0%Z (s_open s) true) = true.
+Proof. exact pre_spec_holds_model. Qed.
+Print Assumptions c05_pre_spec_holds.
 
 (* non-vacuity: a body with hooks and statements, a failing third driver operation *)
 Example c05_instance :
